@@ -37,7 +37,9 @@ func main() {
 	dump := flag.Bool("dump", false, "print the generated case and exit")
 	minimise := flag.String("minimise", "", "replay file to minimise")
 	minout := flag.String("minout", "", "where to write the minimised replay file")
+	real := flag.Bool("real", false, "real-goroutine mode (binary must be linked against unrewritten moss)")
 	flag.Parse()
+	harness.RealMode = *real
 
 	simrt.StartWatchdog(30 * time.Second)
 	enc := json.NewEncoder(os.Stdout)
